@@ -76,4 +76,10 @@ CLAIMS = {
         note="Detection of map-order dependence is probabilistic; the comparison is on the behavioural normal form so that textual differences without behaviour (priority map numbering) are not reported; Gateway routes are not part of the generated worlds.",
         technique="property-based testing (rapid): metamorphic relation (permuted inputs / repeated runs must give the same normal form)",
     ),
+    "C02": dict(
+        text="Generated histories of endpoint, weight, certificate and configuration changes, with fault plans over individual runtime commands, run against a simulated HAProxy behind real unix sockets; after every successful update the state of the running process is compared with the state obtained by loading the files just written (servers per slot, drain, preserved cookies, certificates).",
+        design_ref="DESIGN.md section 3, C02; section 2.4 simhap",
+        note="simhap's model of set server / set ssl cert / commit ssl cert / reload is the trusted base; real HAProxy is not available in the sandbox.",
+        technique="stateful property-based testing (rapid) with fault injection: model-based comparison running state == load(files) after every step",
+    ),
 }
